@@ -14,6 +14,7 @@ Binding (replay, spec -> code), engine harness/engines/migration:
   (b) TLC-generated schedules of the block-transactions migration are forced onto the real
       blocktransactions.Migrator under the real runner by gating the ingestors' reads; projection
       (old entries / new blob per block, applied bit) after every commit;
+  (d) the optional history-pruning migration under the same crash enumeration (TestHistoryPrunerEnum);
   (c) crash / cancel enumeration: databases written in the previous layout from seeded chains, the real
       blocktransactions.Migrator and statedifflength.Migrator under the real runner, CrashAfter k /
       CancelAfter k for EVERY durable mutation k (plus second crashes), rerun to completion, final
@@ -167,6 +168,19 @@ def enum_part(ctx, binary, thorough):
     ctx.coverage["enum_interrupt_restart_sequences"] = res.get("replayed", 0)
 
 
+def historypruner_part(ctx, binary, thorough):
+    """Optional history-pruning migration (anchored under C16, driven by this engine): crash after EVERY
+    durable mutation of the full registry with pruning enabled, restart (3 attempts), final database
+    identical to the uninterrupted run's, retained blocks read back."""
+    rnd = random.Random(ctx.seed * 13 + 5)
+    sh = [{"name": "legacy-30", "txs": [rnd.randint(0, 3) for _ in range(30)]}]
+    if thorough:
+        sh.append({"name": "legacy-44", "txs": [rnd.randint(0, 3) for _ in range(44)]})
+    res = ctx.run_engine(binary, "TestHistoryPrunerEnum", {"shapes": sh}, timeout=1500)
+    ctx.absorb(res, "migration", "TestHistoryPrunerEnum")
+    ctx.coverage["historypruner_crash_restart_sequences"] = res.get("replayed", 0)
+
+
 def run(ctx):
     binary = ctx.build_engine("migration")
     if ctx.replay:
@@ -180,6 +194,7 @@ def run(ctx):
     runner_part(ctx, binary, thorough)
     blocktx_part(ctx, binary, thorough)
     enum_part(ctx, binary, thorough)
+    historypruner_part(ctx, binary, thorough)
     ctx.assumptions += [
         "a single Batch.Write / Put / DeleteRange is atomic and durable (C15 examines the backends)",
         "a crash is modelled as: the k-th durable mutation is applied and no later operation reaches the store",
@@ -202,5 +217,6 @@ def run(ctx):
         "chain in the previous layout: crash / cancel / write-failure at EVERY durable mutation of the full registry "
         "(blocktransactions + statedifflength), cancellation at every pipeline stage, (thorough) every second "
         "crash, restart, final database byte-identical to the uninterrupted run and every block read back through "
-        "the current accessors; non-trivial = the interrupt fired and the restart had work left or had to recognise "
-        "completed work")
+        "the current accessors; (d) the same crash enumeration with the history-pruning migration enabled "
+        "(legacy state, L1 head 4 below the tip, 5 blocks retained); non-trivial = the interrupt fired and the "
+        "restart had work left or had to recognise completed work")
